@@ -4,11 +4,11 @@ import "golang.org/x/tools/go/ssa"
 
 // envModel holds the per-path environment stubs (clock, file system, sleeps).
 type envModel struct {
-	i       *interpreter
-	clockN  int
-	lastNow *Term
-	clk     *Term
-	sleeps  []value
+	i          *interpreter
+	clockN     int
+	lastNow    *Term
+	clk        *Term
+	sleeps     []value
 	files      map[string]*fsFile
 	fsLog      []string
 	readFaults map[string][]int
@@ -17,9 +17,9 @@ type envModel struct {
 	writes     map[string]int
 	tokenOf    map[*value]tokenRef
 	nextDoc    int
+	open       map[*value]*openFile
 	decoded    int
 }
-
 
 func newEnvModel(i *interpreter) *envModel {
 	return &envModel{i: i, files: map[string]*fsFile{}, readFaults: map[string][]int{}, writePlans: map[string][]writePlan{},
